@@ -47,9 +47,9 @@ def run(V, wd, rng, tier, per_batch=4):
         for k, s in enumerate(batches[bi]):
             fa = os.path.join(bwd, "s%d.fa" % k)
             open(fa, "w").write(kv.fasta([("n%02d" % i, x) for i, x in enumerate(s["seqs"])]))
-            lines += ["note %s" % s["id"], "read 0 %s" % fa, "dump 0 in full", "run 0 1 %d %g %g %g" % (s["type"], s["pens"][0], s["pens"][1], s["pens"][2]), "free 0"]
+            lines += ["note %s" % s["id"], "read 0 %s" % fa, "dump 0 in full", "run 0 1 %d %g %g %g" % (s["type"], s["pens"][0], s["pens"][1], s["pens"][2]), "dump 0 out full", "free 0"]
         tp, rc, err = kv.run_kvdrive("\n".join(lines) + "\n", bwd, "t", timeout=300)
-        keep = [e for e in kv.read_trace(tp) if e.get("e") in ("Params", "Sorted", "MergeBegin", "HSplit", "MergeEnd", "Note") or (e.get("e") == "Obj" and e.get("tag") == "in")]
+        keep = [e for e in kv.read_trace(tp) if e.get("e") in ("Params", "Sorted", "MergeBegin", "HSplit", "MergeEnd", "Note") or (e.get("e") == "Obj" and e.get("tag") in ("in", "out"))]
         kp = os.path.join(bwd, "p.ndjson")
         kv.write_ndjson(kp, keep)
         res = kv.run_tlc("ProgressiveTrace", "ProgressiveTrace.cfg", bwd, trace=kp, timeout=3000, heap="4g", name="prog")
@@ -63,6 +63,7 @@ def run(V, wd, rng, tier, per_batch=4):
         for kind in (0, 1, 2):
             key = "progressive_merges_walked_kind%d" % kind
             V.extra[key] = V.extra.get(key, 0) + sum(1 for x in merges if x.split(",")[2] == str(kind))
+        V.extra["progressive_alignments_rows_compared"] = V.extra.get("progressive_alignments_rows_compared", 0) + sum(1 for x in res.prints if x.startswith('<<"KVROWS"'))
         V.extra["progressive_splits_rederived"] = V.extra.get("progressive_splits_rederived", 0) + nsplit
         V.extra["progressive_merges_skipped"] = V.extra.get("progressive_merges_skipped", 0) + sum(1 for x in res.prints if x.startswith('<<"KVSKIP"'))
         V.extra["progressive_too_close_to_call_in_float"] = V.extra.get("progressive_too_close_to_call_in_float", 0) + sum(1 for x in res.prints if x.startswith('<<"KVNOTE"'))
